@@ -255,8 +255,8 @@ namespace cnl {
                 return (std::max(overflow_digits<Lhs, polarity::positive>::value, overflow_digits<Rhs, polarity::negative>::value)
                                 + 1
                         > traits::positive_digits)
-                    && rhs < Rhs{0}  // NOLINTNEXTLINE(bugprone-misplaced-widening-cast)
-                    && lhs > static_cast<typename traits::result>(std::numeric_limits<Rhs>::max() + rhs);
+                    && rhs < Rhs{0}
+                    && lhs > traits::max() + rhs;
             }
         };
 
